@@ -8,7 +8,6 @@ package c13
 import (
 	"fmt"
 	"net/http"
-	"net/http/httptest"
 	"strings"
 	"testing"
 
@@ -83,7 +82,7 @@ func TestReplayBurstDropsChanges(t *testing.T) {
 	p := &realProducer{store: ha.NewInMemorySessionStore()}
 	lg, drops := dropCountingLogger()
 	p.act = ha.NewHASyncer(activeConfig("active"), p.store, lg)
-	p.srv = httptest.NewServer(p.act.VerifActiveHandler())
+	p.srv = newLoopbackServer(p.act.VerifActiveHandler())
 	p.tr = &http.Transport{}
 	p.client = &http.Client{Transport: p.tr}
 	w := newWorld(t, p)
